@@ -551,8 +551,8 @@ class NLS(System):
             For nonlinear systems, the users have to call this function before getting the
             linearized system.
         '''
-        self._ref_state = self.state if state is None else torch.atleast_1d(state)
-        self._ref_input = self.input if input is None else torch.atleast_1d(input)
+        self._ref_state = (self.state if state is None else torch.atleast_1d(state)).clone()
+        self._ref_input = (self.input if input is None else torch.atleast_1d(input)).clone()
         self._ref_t = self.systime.clone() if t is None else torch.atleast_1d(t).clone()
         self._ref_f = self.state_transition(self._ref_state, self._ref_input, self._ref_t)
         self._ref_g = self.observation(self._ref_state, self._ref_input, self._ref_t)
